@@ -210,6 +210,17 @@ def main(argv=None):
             print(f"UNDECIDED obligation={e['name']} reason={[v.get('reason') for v in e['vcs'] if v.get('reason')][:1]}")
         if rc == 0:
             rc = 2
+    # ---- bounded stand-in for loops whose inductive contract no longer fits (tpv/fallback.py)
+    from . import fallback as _fb
+
+    fb_result, fb_line, fb_path, fb_notes = _fb.after_verdict(prop, args.tier, args.only, undecided)
+    for n_ in fb_notes:
+        print(n_)
+    if fb_line:
+        print(fb_line)
+        replay_paths.append(fb_path)
+        violations.append({"name": "bounded-runtime-contract-check", "fallback": fb_result["failing"][0]})
+        rc = 1
     # ---- evidence
     kf_names = {e["name"] for v in known_hit.values() for e in v}
     # obligations that reproduce a listed known finding are reported under known_finding_obligations, not as
@@ -279,6 +290,7 @@ def main(argv=None):
         "functions_under_contract": {t: hashes.get(_executed(t)) for t in targets if _executed(t) is not None},
         "targets_named_but_not_exercised": not_exercised,
         "functions_executed_from_source": hashes,
+        "loop_contract_names_realigned": {k: v for r in results for k, v in (r.get("renamed_locals") or {}).items()},
         "vacuity": {"cover_checks": len(covers), "covers_ok": sum(1 for e in covers if e["status"] == "proved"), "canaries": len(canaries), "canaries_refuted_as_required": sum(1 for e in canaries if e["status"] == "proved")},
         "samples": samples,
         "evaluations": len(all_vcs),
@@ -288,6 +300,7 @@ def main(argv=None):
         "engine_selftest": engine_selftest,
         "cvc5_crosscheck": {k: sum(1 for v in all_vcs if v.get("cvc5") == k) for k in sorted({v.get("cvc5") for v in all_vcs if v.get("cvc5")})},
         "undecided": [e["name"] for e in undecided],
+        "bounded_runtime_contract_check": fb_result,
         "errors": [f"{r['scenario']}[{r['cfg']}]: {r['error']}" for r in errors],
     }
     ev = {
